@@ -104,6 +104,18 @@ pub fn build_case(rng: &mut Rng, index: u64) -> Case {
     for d in defs.iter().chain(helper.iter()) {
         steps.push(Step { main: vec![Item::Form(d.clone())], twin: vec![Item::Form(d.clone())], compare: true, label: "definition" });
     }
+    // a continuation captured under `kd` pending frames by a successful evaluation before the failures;
+    // it is re-entered after them (last probes): the failures must not have damaged what it needs
+    let kd = *rng.pick(&[0i64, 3, 20, 41, 42, 43, 44, 45, 60, 100, 180]) + rng.range(0, 2);
+    tags.push(format!("stored-continuation-depth:{}", if kd < 40 { "<40" } else if kd < 50 { "40-49" } else { ">=50" }));
+    for d in parse_forms(&format!(
+        "(define kd7 #f) (define kdn7 0)
+         (define (deepk7 n) (if (= n 0) (call/cc (lambda (k) (set! kd7 k) 0)) (+ 1 (deepk7 (- n 1)))))
+         (define rd7 (deepk7 {}))",
+        kd
+    )) {
+        steps.push(Step { main: vec![Item::Form(d.clone())], twin: vec![Item::Form(d.clone())], compare: true, label: "definition" });
+    }
     let k_fail = match (index / 36) % 4 {
         0 => 1,
         1 => 2,
@@ -192,6 +204,7 @@ pub fn build_case(rng: &mut Rng, index: u64) -> Case {
     probes.push(gen::call("probe-fail7", vec![gen::int(3)]));
     probes.extend(probe_exprs);
     probes.push(gen::call("probe-fail7", vec![gen::int(0)]));
+    probes.extend(parse_forms("(if (< kdn7 1) (begin (set! kdn7 (+ kdn7 1)) (kd7 500)) 'spent) (list rd7 kdn7) (+ 1 (if (< kdn7 2) (begin (set! kdn7 (+ kdn7 1)) (kd7 7)) 0)) (list rd7 kdn7)"));
     for p in probes {
         steps.push(Step { main: vec![Item::Form(p.clone())], twin: vec![Item::Form(p)], compare: true, label: "probe" });
     }
